@@ -144,6 +144,12 @@ class NodeMeta(type):
                     if not key.isidentifier() or keyword.iskeyword(key):
                         # NOTE: Since these keys are not part of signature validation,
                         # we have to check ourselves if any args follow them.
+                        # Same goes for duplicates - same as with regular kwargs, the same key
+                        # must not be given twice.
+                        if key in invalid_kwargs:
+                            raise TypeError(
+                                f"Invalid parameters for tag '{self.tag}': got multiple values for argument '{key}'"
+                            )
                         invalid_kwargs[key] = resolved_param.value
                         did_see_special_kwarg = True
                     else:
